@@ -100,6 +100,12 @@ def run(ctx):
     def expect(where, meth, want, macro=None, label=None):
         fi, paths = one(where, meth, macro)
         ds = retdict(paths)
+        if not ds:
+            helper = [p.retval[1][1] for p in paths if p.returns and p.retval is not None and p.retval[0] == "call" and p.retval[1][0] == "free" and p.retval[1][1] in M.functions]
+            if helper:
+                # the schema fragment is assembled by a package-level helper the rule cannot see through: undecided, not a violation
+                ctx.error("C19.R2 undecided: %s.%s returns through the helper %s(); the role rule needs the dict it builds" % (macro or where, meth, helper[0]))
+                return fi, paths
         ok = bool(ds)
         detail = []
         for p, d in ds:
@@ -204,18 +210,27 @@ def run(ctx):
     alloc = ("call", ("attr", ("param", "ksy"), "allocateId"), (), ())
     nst = 0
     for f in M.all_functions():
-        if "ksy" not in [a.arg for a in f.node.args.args]:
+        in_gen = f.cls is not None and f.cls.name == "KsyGen" and f.name != "__init__"
+        if "ksy" not in [a.arg for a in f.node.args.args] and not in_gen:
             continue
-        ps = paths_of(ctx, f)
-        for st in uniq_events(ps, "STORE"):
+        ps = paths_of(ctx, f, f.cls.name if f.cls else None)
+        holder = SELF if in_gen else ("param", "ksy")
+        alloc_here = ("selfcall", "allocateId", (), ()) if in_gen else alloc
+        for st in uniq_events(ps, "STORE", "SELFWRITE"):
             b = st["base"]
-            if not (b[0] == "attr" and b[1] == ("param", "ksy")):
+            if not (isinstance(b, tuple) and b and b[0] == "attr" and b[1] == holder) or st["key"] is None:
                 continue
+            if in_gen:
+                # a registering method of the generator itself: every call registers a new entry (returning an existing name for an
+                # "equal" entry compares schema fragments that may hold expression objects, whose == is always truthy)
+                rets_ = [p for p in ps if p.returns]
+                ctx.ob("C19.R5", f, bool(rets_) and all(any(e.kind in ("STORE", "SELFWRITE") and e.node is st.node for e in p.events) for p in rets_),
+                       "KsyGen.%s stores a new entry on every returning path (no reuse of an existing entry)" % f.name, key="KsyGen.%s always registers" % f.name)
             nst += 1
             k = st["key"]
-            ok = k[0] == "fmt" and N.is_const(k[1]) and N.contains(k, alloc)
+            ok = k[0] == "fmt" and N.is_const(k[1]) and (N.contains(k, alloc) or N.contains(k, alloc_here) or (in_gen and N.contains(k, nid)))
             ctx.ob("C19.R5", f, ok, "entries of the shared table ksy.%s are stored under a name built from a fresh ksy.allocateId() (an entry keyed any other way can overwrite an earlier one; got %s)" % (b[2], N.show(k)), key="ksy.%s key" % b[2])
-            rets = [p for p in ps if p.returns and any(e.kind == "STORE" and e.node is st.node for e in p.events)]
+            rets = [p for p in ps if p.returns and any(e.kind in ("STORE", "SELFWRITE") and e.node is st.node for e in p.events)]
             ctx.ob("C19.R5", f, bool(rets) and all(p.retval == k for p in rets), "the name returned is the name the entry was stored under", key="ksy.%s returned name" % b[2])
     ctx.floor("C19.R5", 7)
     # ---------------------------------------------------------------- R6 conditions, sizes and counts given as expressions are exported as their text: operator spellings and rendering (shared with C11.R3/R4)
